@@ -61,6 +61,9 @@ def replay(m, prop: str, path: str) -> int:
 
 
 def main() -> int:
+    import faulthandler
+    import signal
+    faulthandler.register(signal.SIGUSR1, all_threads=True)      # kill -USR1 <pid> dumps the stacks of a stuck check
     ap = argparse.ArgumentParser()
     ap.add_argument("prop")
     ap.add_argument("--tier", default=os.environ.get("VERIF_TIER", "quick"), choices=["quick", "thorough"])
